@@ -7,3 +7,24 @@ pub(crate) fn verif_make_reqid(v: i64) -> RequestId {
     r.0 = v as _;
     r
 }
+// Native bounded stand-in for the request-id generator, used only behind a failed / undecided obligation (C03 / C04 / C07 / C10): 20 000
+// draws are inside 0..=2^31-1 (what an Integer32 request-id field can carry), the stored value is the returned one, check() accepts
+// exactly it, and the draws are not constant.
+#[cfg(test)]
+mod verif_find_reqid {
+    use super::*;
+    #[test]
+    fn finder_request_id_range() {
+        let mut r = RequestId::default();
+        let mut distinct = std::collections::HashSet::new();
+        for _ in 0..20_000 {
+            let v = r.get_next();
+            assert!((0..=0x7fff_ffffi64).contains(&v), "request id {} outside 0..=2^31-1", v);
+            assert!(r.check(v), "check() refuses the id just generated");
+            assert!(!r.check(v + 1) && !r.check(v - 1) && !r.check(v | (1 << 31)) && !r.check(v | (1 << 32)), "check() accepts another value");
+            assert_eq!(r.0 as i64, v, "the stored id is not the returned one");
+            distinct.insert(v);
+        }
+        assert!(distinct.len() > 19_000, "request ids repeat: {} distinct of 20000", distinct.len());
+    }
+}
